@@ -179,6 +179,12 @@ def run(ctx: Ctx):
     shared_structure(ctx, M, "C11-STRUCT")
     run_c11(ctx, M)
     run_c09(ctx, M)
+    # where an annotation lands in the markup is decided by the offset translation: a table that maps a plain offset into the middle of a tag puts
+    # the annotation there.  The two decided facts about the table (C10-R12 monotone, C10-R13 steps account for both texts and '=' only for equal
+    # blocks) are necessary for C11 as well
+    from .c10 import rule_diff_steps, rule_monotone_table
+    ctx.guard(rule_monotone_table, ctx, ctx.repo, M.m)
+    ctx.guard(rule_diff_steps, ctx, ctx.repo, M.m)
     ctx.floor("C11-R1", 1)
     ctx.floor("C11-R2", 2)
     ctx.floor("C11-R4", 3)
